@@ -650,7 +650,7 @@ def translate():
 
 THEOREMS = [
     # the loader reads the columns the writer writes (regenerated tables)
-    'C08.loader_tables_match_writer', 'C08.atom_styles_id_first',
+    'C08.loader_tables_match_writer', 'C08.atom_styles_id_first', 'C08.lookupCols_id_first',
     # table_reshape_roundtrip: column <-> shape via indexstr / C-order reshape
     'C08.table_reshape_roundtrip', 'C08.reshape_flatten_roundtrip', 'C08.shape_told_apart',
     # every carried per-atom property with its shape: the table reader keeps the shape of the prop_info entry
